@@ -50,7 +50,7 @@ def vstructure_rules(rep, prog):
                 if len(mono) == 1 and coef == 1 and ((p[0] == ">0" and const == -1) or (p[0] == ">=0" and const == -2)):
                     cnt = mono[0]
         if cnt is not None:
-            S2 = Sym(prog, inline=lambda g: g.module.name == "sempler.utils" and g.qname != q)
+            S2 = Sym(prog, inline=lambda g: g.public_module.name == "sempler.utils" and g.qname != q)
             S2.desugar = getattr(S, "desugar", False)
             run_function(S2, f)
             it2 = [v for k, v in S2.loopinfo.items() if v["func"] == q and k[1] == lo[1]][0]["iter"]
